@@ -221,7 +221,7 @@ def mutants(rng, a):
         for m in ns:
             if m.key is not None and m.parent is not None and m.parent.kind == 'o':
                 m.kconst = not m.kconst
-            if m.kind == 's':
+            if m.kind == 's' or m.parent is not None:
                 m.ref = not m.ref
     with_edit('ownership-flags-flipped', flags)
 
